@@ -63,6 +63,16 @@ def impl_read(case):
         if not all(m.type == 'sysex' for m in ms):
             fail = ('non-sysex-returned', 'read of %r returned %r' % (bytes(case), ms))
         elif case and case[0] != 0xf0:
+            toks = bytes(case).decode('latin1').split()
+            import re
+            if all(re.fullmatch(r'(?:[0-9A-Fa-f]{2})+', t) for t in toks):
+                try:
+                    want = [m.bytes() for m in mido.parser.parse_all(bytes.fromhex(''.join(toks))) if m.type == 'sysex']
+                except Exception:  # noqa: BLE001
+                    want = None
+                if want is not None and [m.bytes() for m in ms] != want:
+                    fail = ('text-read-wrong', 'the text %r denotes %d sysex message(s) but %d were read (or with other content)' % (bytes(case).decode('latin1')[:60], len(want), len(ms)))
+        if fail is None and case and case[0] != 0xf0:
             # plain text: every byte is a 2-digit hex number, so every maximal run of hex digits has even length
             import re
             txt = bytes(case).decode('latin1')
@@ -71,6 +81,18 @@ def impl_read(case):
     except ValueError:
         out = [-1, 1]
         tag = 'read:ValueError'
+        # the statement, the other way round: hex bytes separated by ANY whitespace are a valid text file
+        if case and case[0] != 0xf0:
+            import re
+            toks = bytes(case).decode('latin1').split()        # str.split(): every character str.isspace() holds for
+            if all(re.fullmatch(r'(?:[0-9A-Fa-f]{2})+', t) for t in toks):
+                raw = bytes.fromhex(''.join(toks))
+                try:
+                    want = [m for m in mido.parser.parse_all(raw) if m.type == 'sysex']
+                    fail = ('rejects-valid-text', 'the text %r is two-digit hex bytes separated by whitespace (%s) and denotes %d sysex message(s), but reading it raised ValueError'
+                            % (bytes(case).decode('latin1')[:60], ', '.join(sorted({repr(c) for c in bytes(case).decode('latin1') if c.isspace()})), len(want)))
+                except Exception:  # noqa: BLE001  (the bytes themselves are not a valid stream: ValueError is right)
+                    pass
     except Exception as e:  # noqa: BLE001
         out = [-1, core.exn_code(e)]
         tag = 'read:other'
